@@ -127,6 +127,17 @@ func main() {
 			fmt.Fprintln(out, "END")
 			w.Close()
 		}
+	case "stat":
+		fs := flag.NewFlagSet("stat", flag.ExitOnError)
+		seed := fs.Int64("seed", 1, "PRNG seed")
+		n := fs.Int("n", 200, "number of measurements")
+		fs.Parse(os.Args[2:])
+		out := bufio.NewWriterSize(os.Stdout, 1<<20)
+		defer out.Flush()
+		rnd := rand.New(rand.NewSource(*seed))
+		for i := 0; i < *n; i++ {
+			statCase(rnd, key, out)
+		}
 	case "replay":
 		fs := flag.NewFlagSet("replay", flag.ExitOnError)
 		in := fs.String("in", "", "history file (HIST header + E lines; other lines ignored)")
